@@ -187,13 +187,24 @@ var topKeywords = map[string]bool{"package": true, "import": true, "let": true, 
 func Segments(toks []Tok) []Segment {
 	var segs []Segment
 	var cur *Segment
+	lineLead := true
 	for _, t := range toks {
 		if t.Kind == EOF {
 			break
 		}
-		if t.Kind == IDENT && t.Col == 0 && topKeywords[t.Text] {
+		// a top-level keyword at column 0 always starts a segment; after a type/package/import segment (which cannot
+		// contain a let) a line-leading keyword at any column does too (the root offside accepts any column)
+		starts := t.Kind == IDENT && topKeywords[t.Text] && (t.Col == 0 ||
+			(lineLead && cur != nil && (cur.Kind == "type" || cur.Kind == "package" || cur.Kind == "import")))
+		if t.Kind == EOL {
+			lineLead = true
+		}
+		if starts {
 			segs = append(segs, Segment{Kind: t.Text, Line: t.Line})
 			cur = &segs[len(segs)-1]
+		}
+		if t.Kind != EOL {
+			lineLead = false
 		}
 		if cur == nil {
 			continue
